@@ -2,7 +2,7 @@
    the framework of GenInv.v: C11, C16 and C17 for every such schema and every layout. *)
 From Coq Require Import List NArith ZArith Bool Arith Lia.
 Require Import Bebop.front.Tok Bebop.front.Parse Bebop.front.Fmt Bebop.front.TokInv Bebop.front.LexInv Bebop.front.ParseInv Bebop.front.FmtInv Bebop.front.MsgInv.
-Require Import Bebop.front.GenInv Bebop.front.Items Bebop.front.TyInv Bebop.front.TyMsg Bebop.front.TyItems Bebop.front.TyUnion Bebop.front.TyUnionItem Bebop.front.TyOpcode Bebop.front.TyEnum Bebop.front.TyDep Bebop.front.TyDoc Bebop.front.TyDec Bebop.front.TyImport Bebop.front.TyFDoc Bebop.front.TyFDocM Bebop.front.TyEDoc Bebop.front.TyFDec Bebop.front.TyFEol Bebop.front.TyFVar.
+Require Import Bebop.front.GenInv Bebop.front.Items Bebop.front.TyInv Bebop.front.TyMsg Bebop.front.TyItems Bebop.front.TyUnion Bebop.front.TyUnionItem Bebop.front.TyOpcode Bebop.front.TyEnum Bebop.front.TyDep Bebop.front.TyDoc Bebop.front.TyDec Bebop.front.TyImport Bebop.front.TyFDoc Bebop.front.TyFDocM Bebop.front.TyEDoc Bebop.front.TyFDec Bebop.front.TyFEol Bebop.front.TyFVar Bebop.front.TyUDoc.
 Import ListNotations.
 
 (* a definition that may carry doc comment lines and opcode lines in front of it, in any number and order *)
@@ -78,7 +78,8 @@ Inductive sdefn :=
 | SFDocEnum (nm tname : ident) (uns : bool) (bits : N) (ml : list cedef) (blank : nat) (* a typed enum whose members may carry such lines *)
 | SEolStruct (nm : ident) (fl : list efdef) (blank : nat)      (* a struct whose fields may be followed, on their line, by a `//` comment *)
 | SFDocUEnum (nm : ident) (ml : list cedef) (blank : nat)      (* an enum without a declared base type whose members carry comment lines / deprecations *)
-| SFDocRoStruct (nm : ident) (fl : list cfdef) (blank : nat).  (* a readonly struct whose fields do *)
+| SFDocRoStruct (nm : ident) (fl : list cfdef) (blank : nat)   (* a readonly struct whose fields do *)
+| SFDocUnion (nm : ident) (bl : list club) (blank : nat).      (* a union whose members carry comment lines / tags / deprecations *)
 
 Definition sdefn_ok (d : sdefn) : Prop :=
   match d with
@@ -101,6 +102,7 @@ Definition sdefn_ok (d : sdefn) : Prop :=
   | SEolStruct nm fl _ => ident_ok nm /\ Forall efdef_ok fl
   | SFDocUEnum nm ml _ => ident_ok nm /\ Forall cedef_ok ml /\ Forall (cmember_ok true 32%N) (map bce ml)
   | SFDocRoStruct nm fl _ => ident_ok nm /\ Forall cfdef_ok fl
+  | SFDocUnion nm bl _ => ident_ok nm /\ Forall club_ok bl /\ cubs_ok [] (map bcub bl) /\ bl <> []
   end.
 Definition xel_of (d : sdefn) : xel :=
   match d with
@@ -123,10 +125,11 @@ Definition xel_of (d : sdefn) : xel :=
   | SEolStruct nm fl k => (ef_item nm fl, ef_x nm fl, k)
   | SFDocUEnum nm ml k => (cue_item nm ml, cue_x nm ml, k)
   | SFDocRoStruct nm fl k => (cfr_item nm fl, cfr_x nm fl, k)
+  | SFDocUnion nm bl k => (cu_item nm bl, cu_x nm bl, k)
   end.
 Lemma xel_of_ok d : sdefn_ok d -> xel_ok (xel_of d).
 Proof.
-  destruct d as [nm fl k|nm fl k|nm fl k|nm ml k|nm bl k|op nm fl k|op nm fl k|nm tname uns bits ml k|nm fl k|cs nm fl k|cs nm fl k|P b k|path k|nm fl k|nm fl k|nm tname uns bits ml k|nm fl k|nm ml k|nm fl k]; cbn [sdefn_ok xel_of xel_ok].
+  destruct d as [nm fl k|nm fl k|nm fl k|nm ml k|nm bl k|op nm fl k|op nm fl k|nm tname uns bits ml k|nm fl k|cs nm fl k|cs nm fl k|P b k|path k|nm fl k|nm fl k|nm tname uns bits ml k|nm fl k|nm ml k|nm fl k|nm bl k]; cbn [sdefn_ok xel_of xel_ok].
   - intros [A B]. now apply st_item_ok.
   - intros [A B]. now apply rt_item_ok.
   - intros (A & B & C). now apply mt_item_ok.
@@ -146,6 +149,7 @@ Proof.
   - intros [A B]. now apply ef_item_ok.
   - intros (A & B & C). now apply cue_item_ok.
   - intros [A B]. now apply cfr_item_ok.
+  - intros (A & B & C & D). now apply cu_item_ok.
 Qed.
 
 (* the lexemes of the text, the File it states, its canonical text *)
@@ -208,6 +212,7 @@ Definition unions_of (d : sdefn) : list union_ :=
   match d with
   | SUnion nm bl _ => [union_of (ibytes nm) (map bub bl)]
   | SDec P (BUnion nm bl) _ => [gunion_of (dec_cmt P) (dec_opc P) (ibytes nm) (map bub bl)]
+  | SFDocUnion nm bl _ => [cunion_of (ibytes nm) (map bcub bl)]
   | _ => []
   end.
 
@@ -229,7 +234,7 @@ Proof.
   { clear. induction dl as [|d dl IH]; intros f; [cbn; rewrite !app_nil_r; repeat split|].
     cbn [map gfile fold_left flat_map]. destruct (IH (it_upd (fst (xe_el (xel_of d))) f)) as (A & B & C & D & E & F & G0).
     unfold gfile in *. rewrite A, B, C, D, E, F, G0.
-    destruct d as [nm fl k|nm fl k|nm fl k|nm ml k|nm bl k|op nm fl k|op nm fl k|nm tname uns bits ml k|nm fl k|cs nm fl k|cs nm fl k|P [nm fl|nm fl|nm fl|nm fl|nm bl|nm tname uns bits ml|nm ml|nm fl|nm fl|nm tname uns bits ml] k|path k|nm fl k|nm fl k|nm tname uns bits ml k|nm fl k|nm ml k|nm fl k]; cbn [xel_of xe_el fst snd cue_item cfr_item ef_item b_cfstruct b_cmmessage b_cenum cf_item cmf_item ce_item st_item rt_item mt_item e_item u_item os_item om_item te_item md_item cs_item cm_item dec_item ddef_base b_struct b_rostruct b_message b_dmessage b_union b_enum b_uenum gb_upd i_item add_import imports_of it_upd add_struct add_message add_enum add_union structs messages enums unions consts imports gopackage app structs_of messages_of enums_of unions_of];
+    destruct d as [nm fl k|nm fl k|nm fl k|nm ml k|nm bl k|op nm fl k|op nm fl k|nm tname uns bits ml k|nm fl k|cs nm fl k|cs nm fl k|P [nm fl|nm fl|nm fl|nm fl|nm bl|nm tname uns bits ml|nm ml|nm fl|nm fl|nm tname uns bits ml] k|path k|nm fl k|nm fl k|nm tname uns bits ml k|nm fl k|nm ml k|nm fl k|nm bl k]; cbn [xel_of xe_el fst snd cu_item cue_item cfr_item ef_item b_cfstruct b_cmmessage b_cenum cf_item cmf_item ce_item st_item rt_item mt_item e_item u_item os_item om_item te_item md_item cs_item cm_item dec_item ddef_base b_struct b_rostruct b_message b_dmessage b_union b_enum b_uenum gb_upd i_item add_import imports_of it_upd add_struct add_message add_enum add_union structs messages enums unions consts imports gopackage app structs_of messages_of enums_of unions_of];
       rewrite <- ?app_assoc, ?app_nil_r; repeat split; reflexivity. }
   destruct (G dl file0) as (A & B & C & D & E & F & G0). cbn [file0 structs messages enums unions consts imports gopackage app] in *. repeat split; assumption.
 Qed.
